@@ -43,11 +43,18 @@ func (r *BatchedTokenRequest) Unmarshal(data []byte) bool {
 	}
 
 	l, offset := quicwire.ConsumeVarint(data)
+	if offset < 0 || l > uint64(len(data)-offset) {
+		return false
+	}
+	end := offset + int(l)
 
 	r.token_requests = make([]tokens.TokenRequestWithDetails, 0)
 	i := offset
-	for i < offset+int(l) {
+	for i < end {
 		var token_request tokens.TokenRequestWithDetails
+		if end-i < 2 {
+			return false
+		}
 		token_type := binary.BigEndian.Uint16(data[i : i+2])
 		switch token_type {
 		case type1.BasicPrivateTokenType:
@@ -57,7 +64,7 @@ func (r *BatchedTokenRequest) Unmarshal(data []byte) bool {
 		default:
 			return false
 		}
-		if !token_request.Unmarshal(data[i:]) {
+		if !token_request.Unmarshal(data[i:end]) {
 			return false
 		}
 		r.token_requests = append(r.token_requests, token_request)
